@@ -3,3 +3,4 @@ import BB.Props.C07
 #print axioms BB.rec_undefined
 #print axioms BB.rec_spinout
 #print axioms BB.rec_recur
+#print axioms BB.rec_recur_translated
